@@ -1708,6 +1708,9 @@ class FnLower:
             elif kind == "modlist":
                 a2 = strip_paren(a)
                 if a2[0] == "ref": a2 = strip_paren(a2[2])
+                abm = self.abstracted(a2, env) if getattr(self, "abs", None) else None
+                if abm is not None and abm[1] is not None and abm[1][1] == "List Modulus":      # phase 4k: an abstracted `&[Modulus]` getter (`self.base_q.base()`) as argument
+                    thunks.append(lambda n=abm[1][0]: Val(n, "modlist", [n])); continue
                 if not (a2[0] == "path" and len(a2[1]) == 1 and self.lookup(env, a2[1][0]).kind == "modlist"): self.fail(f"call to {fname}: `&[Modulus]` argument")
                 thunks.append(lambda a2=a2: Val(env[a2[1][0]].lean, "modlist", [env[a2[1][0]].lean]))
             elif kind == "mlist":
@@ -3528,7 +3531,7 @@ FILES += [
     ("EvalCtFns.lean", {"ns": "GenC", "imports": ["Heathcliff.Gen.PolyFns", "Heathcliff.Gen.EvalFns"], "table": TABLE_EVALCT,
                         "opens": ["HC.GenW", "HC.GenP"], "prelude": EVALCT_PRELUDE}),
     ("ScalingFns.lean", {"ns": "GenS", "imports": ["Heathcliff.Gen.WordFns"], "table": TABLE_SCALING, "opens": ["HC.GenW"], "prelude": SCALING_PRELUDE}),
-    ("RnsFns.lean", {"ns": "GenR", "imports": ["Heathcliff.Gen.WordFns"], "table": TABLE_RNS, "opens": ["HC.GenW"], "prelude": PRELUDE_RNS}),
+    ("RnsFns.lean", {"ns": "GenR", "imports": ["Heathcliff.Gen.WordFns", "Heathcliff.Gen.PolyFns"], "table": TABLE_RNS, "opens": ["HC.GenW"], "prelude": PRELUDE_RNS}),
 ]
 
 # Gen/Word2Fns.lean (phase 4d): more of src/util/basic.rs - the 192-bit shifts, multi-word comparison, the in-place add / sub and the
